@@ -158,7 +158,7 @@ def norms_from_res(A, cfg, d, res, status, scale=None):
         nm.update(HRY=ss(res['hry']), HRZ=ss(res['hrz'], lw))
     return nm
 
-def model_ladder(goal, pc, side, tmo):
+def model_ladder(goal, pc, side, tmo, data_re=None):
     """Counterexample search when the exact query is undecided: the same query with the problem
     data (and then tau, kappa) pinned to small rationals - still a solver verdict (a model of the
     pinned query is a model of the original one); only `sat` is used."""
@@ -167,7 +167,7 @@ def model_ladder(goal, pc, side, tmo):
     t0 = time.time()
     names = set()
     for f in list(pc) + [goal]: names |= sym.consts_of(f)
-    data = sorted(n for n in names if re.match(r'^(c\d+|G\d+_\d+|h\d+|A\d+_\d+|b\d+)$', n))
+    data = sorted(n for n in names if (data_re or DATA_RE).match(n))
     pats = ([1, -1, 2, 0, -2, 3], [2, 1, -1, 1, 0, 5, -3])
     for pi, pat in enumerate(pats):
         for extra_names in ((), ('tau', 'kappa')):
@@ -274,6 +274,60 @@ def _world():
         _WORLD = loader.load('sym', modules=('misc', 'coneprog'))
     return _WORLD
 
+class ConelpSpec(object):
+    """what the generic exit-block engine (job/replay below) needs to know about conelp"""
+    name = 'conelp'
+    norm_data_keys = ('c', 'h', 'b')
+    abs_fields = ('primal infeasibility', 'dual infeasibility', 'residual as primal infeasibility certificate',
+                  'residual as dual infeasibility certificate')
+    option_names = ('feastol', 'abstol', 'reltol')
+    @staticmethod
+    def run(cfg, Wd, A, mk, assume, cap):
+        from vp.checks import conelp_h as H
+        return H.run_conelp(cfg, Wd, A, mk, assume, cap)
+    @staticmethod
+    def residuals(A, cfg, dn, sol):
+        from vp.checks import conelp_h as H
+        xs = {nm: H.vec_of(A, sol[nm]) for nm in ('x', 'y', 's', 'z')}
+        return H.oracle_residuals(A, cfg, dn, xs)
+    links = staticmethod(lambda st, cap, ores, sol: _links(st, cap, ores, sol))
+    claims = staticmethod(lambda *a: claims(*a))
+    norms_from_res = staticmethod(lambda *a: norms_from_res(*a))
+    witnesses = staticmethod(lambda st, cfg, maxit: witnesses(st, cfg, maxit))
+    @staticmethod
+    def data_re(): return DATA_RE
+    @staticmethod
+    def prop_of(st): return 'C01' if st in ('optimal', 'unknown') else 'C02'
+    @staticmethod
+    def factor(st, loc, absvar):
+        from vp.pysym import sym
+        if st in ('optimal', 'unknown'): return absvar(sym.T(loc['tau']), 'a!tau')
+        if st == 'primal infeasible': return -absvar(sym.T(loc['hz']), 'a!hz') - absvar(sym.T(loc['by']), 'a!by')
+        return -absvar(sym.T(loc['cx']), 'a!cx')
+    @staticmethod
+    def U(st, A2, cfg, dn, ares):
+        from vp.checks import conelp_h as H
+        from vp.oracles import cone as O
+        lw_ = H.lower_weights(cfg['dims']); zero_ = A2.const(0)
+        def ssq(dct, weights=None):
+            if weights is None: return O._sum((dct[i]*dct[i] for i in sorted(dct)), zero_)
+            return O._sum((w*dct[i]*dct[i] for i, w in weights if i in dct), zero_)
+        U = dict(H.sq_norms(A2, cfg, dn))
+        if st in ('optimal', 'unknown'):
+            U.update(Rx=ssq(ares.get('rx', {})), Ry=ssq(ares.get('ry', {})), Rz=ssq(ares.get('rz', {}), lw_)); scaled = {'Rx', 'Ry', 'Rz'}
+        elif st == 'primal infeasible':
+            U.update(HRX=ssq(ares.get('hrx', {}))); scaled = {'HRX'}
+        else:
+            U.update(HRY=ssq(ares.get('hry', {})), HRZ=ssq(ares.get('hrz', {}), lw_)); scaled = {'HRY', 'HRZ'}
+        return U, scaled
+
+def get_spec(name):
+    if name == 'conelp': return ConelpSpec
+    if name == 'coneqp':
+        from vp.checks import c03
+        return c03.ConeqpSpec
+    raise KeyError(name)
+
 def _links(status, cap, res, sol):
     """linking lemmas: (label, oracle_term, factor_term, sign, code_term) meaning
     oracle*factor == sign*code; and the abstraction recipe."""
@@ -306,6 +360,7 @@ def job(cfg):
     from vp.checks import conelp_h as H
     from vp.oracles import cone as O
     Wd = _world()
+    spec = get_spec(cfg['solver'])
     tmo = int(cfg.get('_timeout_ms', 10000))
     res = {'paths': 0, 'status': {}, 'obl': {'total': 0, 'unsat': 0, 'sat': 0, 'unknown': 0}, 'solver_s': 0.0,
            'sat': [], 'unknown': [], 'errors': [], 'samples': [], 'relax_q': 0, 'reach': {}, 'by_prop': {}}
@@ -321,7 +376,7 @@ def job(cfg):
         def mk(name, kind='real'):
             return sym.SymInt(z3.Int(name)) if kind == 'int' else sym.SymReal(z3.Real(name))
         def assume(p): sym.CTX.assume(p)
-        d, sol = H.run_conelp(cfg, Wd, A, mk, assume, cap)
+        d, sol = spec.run(cfg, Wd, A, mk, assume, cap)
         return d, sol
     def on_path(kind, val, ctx):
         if state.get('phase', 1) == 1: res['paths'] += 1
@@ -333,7 +388,7 @@ def job(cfg):
             if isinstance(val, H.Cut): return
             v = prove.feasible(pc, tmo)
             if v == 'unsat': count('C10', 'unsat', 0); return
-            label = 'conelp raised %s: %s' % (type(val).__name__, str(val)[:120])
+            label = '%s raised %s: %s' % (cfg['solver'], type(val).__name__, str(val)[:120])
             if v == 'sat':
                 _, m, _ = sym.check(pc, tmo, want_model=True)
                 count('C10', 'sat', 0)
@@ -347,24 +402,23 @@ def job(cfg):
         st = sol['status']
         if state.get('phase', 1) == 1: res['status'][st] = res['status'].get(st, 0) + 1
         dn = {key: [A.num(e) for e in v] for key, v in d.items()}
-        xs = {nm: H.vec_of(A, sol[nm]) for nm in ('x', 'y', 's', 'z')}
-        ores = H.oracle_residuals(A, cfg, dn, xs)
+        ores = spec.residuals(A, cfg, dn, sol)
         k, maxit = cap['k'], cap['maxiters']
         # ---- stage 1: linking lemmas  oracle_residual * factor == +-code_residual
-        links, fac = _links(st, cap, ores, sol)
+        links, fac = spec.links(st, cap, ores, sol)
         lemmas = [o*f == sg*t for (_, o, f, sg, t, _) in links]
         if lemmas:
             r = prove.prove(z3.And(*lemmas), pc, (), tmo)
             if r['verdict'] == 'unsat':
-                count('C01' if st in ('optimal', 'unknown') else 'C02', 'unsat', r['secs'], len(lemmas))
+                count(spec.prop_of(st), 'unsat', r['secs'], len(lemmas))
                 linked = True
             else:
                 linked = False
-                count('C01', 'unknown' if r['verdict'] == 'unknown' else 'sat', r['secs'])
+                count(spec.prop_of(st), 'unknown' if r['verdict'] == 'unknown' else 'sat', r['secs'])
         else:
             linked = True
         # ---- stage 2: abstract residual cells and the scale factor by fresh variables
-        full = claims(A, cfg, dn, sol, norms_from_res(A, cfg, dn, ores, st), cap['opts'], k, maxit)
+        full = spec.claims(A, cfg, dn, sol, spec.norms_from_res(A, cfg, dn, ores, st), cap['opts'], k, maxit)
         abs_claims = None
         if linked:
             loc = cap['locals']
@@ -375,41 +429,24 @@ def job(cfg):
                 if z3.is_rational_value(term) or z3.is_const(term):
                     allowed.update(sym.consts_of(term)); return term
                 v = z3.Real(name); allowed.add(name); pairs.append((term, v)); return v
-            if st in ('optimal', 'unknown'):
-                fv = absvar(sym.T(loc['tau']), 'a!tau')
-            elif st == 'primal infeasible':
-                fv = -absvar(sym.T(loc['hz']), 'a!hz') - absvar(sym.T(loc['by']), 'a!by')
-            else:
-                fv = -absvar(sym.T(loc['cx']), 'a!cx')
+            fv = spec.factor(st, loc, absvar)
             ares = {}
             for (lab, o, f, sg, t, (vn, idx)) in links:
                 av = absvar(t, 'a!%s%s' % (vn, idx))
                 ares.setdefault(vn, {})[idx] = sg*av          # unscaled: oracle residual = this / fv
-            for key in ('c', 'h', 'b'):
+            for key in spec.norm_data_keys:
                 for e in dn[key]: allowed |= sym.consts_of(e)
             pc_abs = [z3.substitute(f, *pairs) for f in pc] if pairs else list(pc)
             sol_abs = dict(sol)
-            for name in ('primal infeasibility', 'dual infeasibility', 'residual as primal infeasibility certificate',
-                         'residual as dual infeasibility certificate'):
-                if sol[name] is not None and sym.is_sym(sol[name]) and pairs:
+            for name in spec.abs_fields:
+                if sol.get(name) is not None and sym.is_sym(sol[name]) and pairs:
                     sol_abs[name] = sym.SymReal(z3.substitute(sym.T(sol[name]), *pairs))
             # ---- stage 3: radicands.  Unscaled oracle sums of squares U (over the a! variables)
             # and the data norms are matched against the radicands of the square roots the code
             # took (solver-checked identity U == radicand); a matched radicand becomes one fresh
             # variable V on both sides, which makes the final lemma dimension-independent.
             A2 = alg.SymAlg()
-            lw_ = H.lower_weights(cfg['dims']); zero_ = A2.const(0)
-            def ssq(dct, weights=None):
-                if weights is None: return O._sum((dct[i]*dct[i] for i in sorted(dct)), zero_)
-                return O._sum((w*dct[i]*dct[i] for i, w in weights if i in dct), zero_)
-            U = dict(H.sq_norms(A2, cfg, dn))
-            scaled = set()
-            if st in ('optimal', 'unknown'):
-                U.update(Rx=ssq(ares.get('rx', {})), Ry=ssq(ares.get('ry', {})), Rz=ssq(ares.get('rz', {}), lw_)); scaled = {'Rx', 'Ry', 'Rz'}
-            elif st == 'primal infeasible':
-                U.update(HRX=ssq(ares.get('hrx', {}))); scaled = {'HRX'}
-            else:
-                U.update(HRY=ssq(ares.get('hry', {})), HRZ=ssq(ares.get('hrz', {}), lw_)); scaled = {'HRY', 'HRZ'}
+            U, scaled = spec.U(st, A2, cfg, dn, ares)
             defs = []      # (index in pc_abs, sq symbol, radicand)
             for i_, f in enumerate(pc_abs):
                 if z3.is_eq(f) and f.arg(0).decl().kind() == z3.Z3_OP_MUL and f.arg(0).num_args() == 2 \
@@ -424,11 +461,11 @@ def job(cfg):
                             vvar = z3.Real('V!%s' % key); allowed.add('V!%s' % key)
                             pc_abs[i_] = (sq_*sq_ == vvar)
                             pc_abs.append(vvar >= 0)
-                            count('C01' if st in ('optimal', 'unknown') else 'C02', 'unsat', 0.0)   # matching identity discharged by the simplifier
+                            count(spec.prop_of(st), 'unsat', 0.0)   # matching identity discharged by the simplifier
                             break
                 val = vvar if vvar is not None else u
                 nm_abs[key] = val/(fv*fv) if key in scaled else val
-            abs_all = claims(A2, cfg, dn, sol_abs, nm_abs, cap['opts'], k, maxit)
+            abs_all = spec.claims(A2, cfg, dn, sol_abs, nm_abs, cap['opts'], k, maxit)
             abs_claims = {lab: g for (_, lab, g, grp) in abs_all if grp == 'abstract'}
             kept, allowed2 = sym.slice_up(pc_abs + A2.side, allowed)
         # ---- designed witnesses: reachability twin + anchored counterexample search
@@ -437,7 +474,7 @@ def job(cfg):
         found = state.setdefault('found', set())
         anchor = None
         matched = state.setdefault('matched', set())
-        for wi, pins in enumerate(witnesses(st, cfg, maxit)):
+        for wi, pins in enumerate(spec.witnesses(st, cfg, maxit)):
             if (st, wi) in matched: continue             # a concrete state follows exactly one path
             allp = pin_formulas(pins, names)
             if prove.feasible(pc + allp, 2000) != 'sat': continue
@@ -478,13 +515,13 @@ def job(cfg):
             if r['verdict'] == 'unknown' and anchor is not None:
                 # anchored search: problem data pinned to a designed state known to satisfy this
                 # path condition, iterate free
-                datap = pin_formulas(anchor, names, lambda nme: bool(DATA_RE.match(nme)) or nme in ('feastol', 'abstol', 'reltol'))
+                datap = pin_formulas(anchor, names, lambda nme: bool(spec.data_re().match(nme)) or nme in spec.option_names)
                 v, m, dt = sym.check(list(pc) + list(A.side) + datap + [z3.Not(goal)], quick_t, want_model=True)
                 if v == 'sat':
                     r = {'verdict': 'sat', 'model': sym.model_to_dict(m), 'secs': dt, 'how': 'anchored'}
             if r['verdict'] == 'unknown' and state.get('ladder_budget', 2) > 0:
                 state['ladder_budget'] = state.get('ladder_budget', 2) - 1
-                r = model_ladder(goal, pc, A.side, quick_t) or r
+                r = model_ladder(goal, pc, A.side, quick_t, spec.data_re()) or r
             count(prop, r['verdict'], r['secs'], force=True)
             if r['verdict'] == 'sat':
                 found.add(label)
@@ -541,6 +578,7 @@ def replay(cfg, model, use_c=True):
     from vp.pysym import loader, alg
     from vp.checks import conelp_h as H
     Wd = loader.load('conc', use_c=use_c, modules=('misc', 'coneprog'))
+    spec = get_spec(cfg['solver'])
     A = alg.ConcAlg()
     def val(name):
         v = model.get(name)
@@ -553,15 +591,14 @@ def replay(cfg, model, use_c=True):
     def assume(p): pre.append(bool(p))
     cap = {}
     try:
-        d, sol = H.run_conelp(cfg, Wd, A, mk, assume, cap)
+        d, sol = spec.run(cfg, Wd, A, mk, assume, cap)
     except H.Cut as e:
         return {'precond_ok': all(pre), 'status': 'cut', 'violated': []}
     except Exception as e:
-        return {'precond_ok': all(pre), 'status': 'exception', 'violated': ['conelp raised %s: %s' % (type(e).__name__, str(e)[:120])]}
+        return {'precond_ok': all(pre), 'status': 'exception', 'violated': ['%s raised %s: %s' % (cfg['solver'], type(e).__name__, str(e)[:120])]}
     dn = {key: [A.num(e) for e in v] for key, v in d.items()}
-    xs = {nm: H.vec_of(A, sol[nm]) for nm in ('x', 'y', 's', 'z')}
-    ores = H.oracle_residuals(A, cfg, dn, xs)
-    cl = claims(A, cfg, dn, sol, norms_from_res(A, cfg, dn, ores, sol['status']), cap['opts'], cap['k'], cap['maxiters'])
+    ores = spec.residuals(A, cfg, dn, sol)
+    cl = spec.claims(A, cfg, dn, sol, spec.norms_from_res(A, cfg, dn, ores, sol['status']), cap['opts'], cap['k'], cap['maxiters'])
     return {'precond_ok': all(pre), 'status': sol['status'], 'violated': [l for (_, l, g, _) in cl if not g]}
 
 def replay_on_build(path):
@@ -585,14 +622,18 @@ def main(tier, pid='C01'):
     from vp import common
     from vp.pysym import loader
     ev = common.Evidence(pid, 'model_checking', tier)
-    cfgs = configs(tier)
+    if pid == 'C03':
+        from vp.checks import c03
+        cfgs = c03.configs(tier)
+    else:
+        cfgs = configs(tier)
     for c in cfgs:
         c['_timeout_ms'] = 10000 if tier == 'quick' else 60000
     results = common.run_jobs('vp.checks.c01', 'job', cfgs)
     known = common.known_findings(pid)
     violations, known_hits, herr, inconc = [], [], [], []
     paths = 0; statuses = {}; reach = {}; seen = {}; job_walls = []
-    mine = {'C01': ('C01', 'C10'), 'C02': ('C02',)}[pid]
+    mine = {'C01': ('C01', 'C10'), 'C02': ('C02',), 'C03': ('C03', 'C10')}[pid]
     for r in results:
         cfg = {k: v for k, v in r['cfg'].items() if not k.startswith('_')}
         if not r['ok']:
@@ -622,17 +663,17 @@ def main(tier, pid='C01'):
                 herr.append('%s: counterexample for "%s" %s (%s)' % (json.dumps(cfg), s['label'], why, rp))
             elif key in known: known_hits.append((key, known[key]['what']))
             else: violations.append((key, rp, '%s -> %s' % (json.dumps(cfg), rep)))
-    need = ('optimal',) if pid == 'C01' else ('primal infeasible', 'dual infeasible')
+    need = ('optimal',) if pid in ('C01', 'C03') else ('primal infeasible', 'dual infeasible')
     for s_ in need:
         if not reach.get(s_): herr.append("reachability twin: no exactly-satisfiable path returning '%s'" % s_)
     ev.extra['sat_by_key'] = seen
     ev.extra['slowest_jobs'] = sorted(job_walls, reverse=True)[:5]
     ev.cov.update({'states': paths, 'transitions': max(1, ev.obl['total']), 'traces_validated_against_impl': 0,
                    'paths_by_status': statuses, 'configurations': len(cfgs), 'reachability_twins_sat': sorted(reach),
-                   'functions_encoded': ['coneprog.conelp (exit block at an arbitrary iteration)', 'misc.sgemv/sdot/snrm2/symm/max_step/trisc/triusc (Python fallbacks)'],
+                   'functions_encoded': ['coneprog.%s (exit block at an arbitrary iteration%s)' % ('coneqp' if pid == 'C03' else 'conelp', '; no-inequality shortcut with exact KKT contract stub' if pid == 'C03' else ''), 'misc.sgemv/sdot/snrm2/symm/max_step/trisc/triusc (Python fallbacks)'],
                    'source_hash': loader.src_hash(['coneprog', 'misc']),
                    'bounds': 'cone structures %s; n<=%d variables, p<=1 equalities; dense and sparse G/A; iteration index k symbolic in [0,maxiters]; all data, tolerances and the iterate symbolic reals'
-                             % (json.dumps(DIMS_QUICK if tier == 'quick' else DIMS_THOROUGH), 2 if tier == 'quick' else 3)})
+                             % (json.dumps(sorted(set(json.dumps(c['dims']) for c in cfgs))), 2 if tier == 'quick' else 3)})
     ev.assumptions += ['loop invariant at the head of an arbitrary iteration: tau>0, kappa>0 (I1); gap = <s,z>/tau^2 (I2); s,z strictly inside the cone (I3)',
                        'exact real arithmetic (floats as reals); NaN/Inf excluded',
                        'user KKT solver stub ends the path after the exit block (not part of the claim)',
